@@ -565,18 +565,49 @@ func ruleEndErrorIsOutcome(c *Ctx, rule string) {
 	// io.EOF is not an error outcome
 	se := p.MustFn("int.StatsEndRPC")
 	okEOF := false
+	appErrP := paramNamed(se, "appErr")
+	guarded := func(fs AtomSet) bool {
+		if !fs.NonNil("p:appErr") {
+			return false
+		}
+		for k := range fs {
+			if strings.HasPrefix(k, "false(v:") {
+				return true // errors.Is(appErr, io.EOF) was false
+			}
+		}
+		return false
+	}
 	allInstrs(se, func(i ssa.Instruction) {
 		if s, ok := i.(*ssa.Store); ok {
 			if fa, ok := s.Addr.(*ssa.FieldAddr); ok && fieldName(fa) == "Error" {
-				fs := p.Facts(i)
-				for k := range fs {
-					if strings.HasPrefix(k, "false(v:") {
-						okEOF = fs.NonNil("p:appErr")
+				// the value stored is the outcome where it was found non-nil and not io.EOF, and nil otherwise: either the
+				// store itself sits under that guard, or the value was selected under it beforehand
+				good := true
+				seen := map[ssa.Value]bool{}
+				var alt func(v ssa.Value, at ssa.Instruction)
+				alt = func(v ssa.Value, at ssa.Instruction) {
+					if seen[v] {
+						return
+					}
+					seen[v] = true
+					switch x := v.(type) {
+					case *ssa.Phi:
+						for k, ed := range x.Edges {
+							pr := x.Block().Preds[k]
+							alt(ed, pr.Instrs[len(pr.Instrs)-1])
+						}
+					case *ssa.Const:
+						if !x.IsNil() {
+							good = false
+						}
+					default:
+						if !p.sameValue(v, appErrP) || !guarded(p.Facts(at)) {
+							good = false
+						}
 					}
 				}
-				if !p.sameValue(s.Val, paramNamed(se, "appErr")) {
-					okEOF = false
-				}
+				alt(s.Val, i)
+				okEOF = good && len(seen) > 0
 			}
 		}
 	})
